@@ -1,5 +1,16 @@
 /-
   The rolling hashes are functions of the trailing window (C09 T4, used by C10).
+
+  Both headline theorems follow from state invariants that can be re-established from any
+  reachable state (the chunker skips bytes, so the hasher does not see a contiguous stream):
+
+  * `RollOK h w`: the `RollSum` state `h` is the one determined by the window `w`
+    (`RollOK_new`, `RollOK_input`, `RollOK_sum`, `rollsum_feed`);
+  * `BuzWarm h n fed` / `BuzOK h n fed`: the `BuzHash` state after the bytes `fed` were fed
+    (`init` for the first `n`, `input` afterwards), including the soundness of the
+    repeated-input shortcut (`RepOK`)
+    (`BuzWarm_new`, `BuzWarm_init_lt`, `BuzWarm_init_eq`, `BuzOK_input`, `BuzOK_feed`,
+    `BuzInv_step`, `BuzInv_fold`).
 -/
 import Bita.Model.Hash
 import Bita.Spec.Chunking
@@ -7,14 +18,459 @@ import Bita.Spec.Chunking
 namespace Bita.Proofs
 open Bita Bita.Spec
 
+/-! ## Windows as lists -/
+
+theorem winAt_end (n : Nat) (hist : Bytes) :
+    winAt n hist hist.length = (List.replicate n 0 ++ hist).drop hist.length := by
+  rw [winAt, List.take_of_length_le]
+  simp
+
+theorem winAt_end_of_le (n : Nat) (hist : Bytes) (hlen : n ≤ hist.length) :
+    winAt n hist hist.length = hist.drop (hist.length - n) := by
+  rw [winAt_end, List.drop_append]
+  simp [List.drop_eq_nil_of_le, hlen]
+
+/-- `winAt` at any position inside the stream: the last `n` bytes of the zero-padded prefix. -/
+theorem winAt_eq_take (n : Nat) (data : Bytes) (p : Nat) (hp : p ≤ data.length) :
+    winAt n data p = (List.replicate n 0 ++ data.take p).drop p := by
+  have := winAt_end n (data.take p)
+  rw [List.length_take, Nat.min_eq_left hp] at this
+  rw [← this, winAt, winAt, List.drop_append, List.drop_append, List.take_append,
+    List.take_append]
+  congr 1
+  simp only [List.length_replicate, List.length_drop, List.drop_take]
+  rw [List.take_take]
+  congr 1
+  omega
+
+theorem winAt_of_le (n : Nat) (data : Bytes) (p : Nat) (hn : n ≤ p) (hp : p ≤ data.length) :
+    winAt n data p = (data.take p).drop (p - n) := by
+  rw [winAt_eq_take n data p hp, List.drop_append, List.drop_eq_nil_of_le (by simpa using hn)]
+  simp
+
+/-- The last `w.length` elements of `w ++ bs` come from `bs` alone once `bs` is long enough. -/
+theorem drop_append_window {α} (w bs : List α) (h : w.length ≤ bs.length) :
+    (w ++ bs).drop bs.length = bs.drop (bs.length - w.length) := by
+  rw [List.drop_append, List.drop_eq_nil_of_le h, List.nil_append]
+
+/-- The last `n` elements of `fed ++ bs` come from `bs` alone once `bs` is long enough. -/
+theorem drop_append_lastN {α} (fed bs : List α) {n : Nat} (h : n ≤ bs.length) :
+    (fed ++ bs).drop ((fed ++ bs).length - n) = bs.drop (bs.length - n) := by
+  rw [List.drop_append, List.length_append, List.drop_eq_nil_of_le (by omega), List.nil_append]
+  congr 1
+  omega
+
+/-! ## RollSum -/
+
+theorem sumBytes_append_single (w : Bytes) (b : UInt8) :
+    sumBytes (w ++ [b]) = sumBytes w + byteVal b := by
+  induction w with
+  | nil => simp [sumBytes]
+  | cons a t ih =>
+    simp only [List.cons_append, sumBytes, ih]
+    grind
+
+theorem weightedSum_append_single (w : Bytes) (b : UInt8) :
+    weightedSum (w ++ [b]) = weightedSum w + sumBytes w + byteVal b := by
+  induction w with
+  | nil => simp [weightedSum, sumBytes]
+  | cons a t ih =>
+    simp only [List.cons_append, weightedSum, sumBytes, ih, List.length_append,
+      List.length_singleton]
+    have h1 : BitVec.ofNat 32 (t.length + 1 + 1) = BitVec.ofNat 32 (t.length + 1) + 1#32 := by
+      simp [BitVec.ofNat_add]
+    rw [h1]
+    grind
+
+theorem sumBytes_replicate_zero (n : Nat) : sumBytes (List.replicate n 0) = 0 := by
+  induction n with
+  | zero => rfl
+  | succ k ih => simp [List.replicate_succ, sumBytes, ih, byteVal]
+
+theorem weightedSum_replicate_zero (n : Nat) : weightedSum (List.replicate n 0) = 0 := by
+  induction n with
+  | zero => rfl
+  | succ k ih => simp [List.replicate_succ, weightedSum, ih, byteVal]
+
+/-- `s1` of a window in closed form: `31 n + Σ wᵢ`. -/
+def rollS1 (w : Bytes) : U32 := 31#32 * BitVec.ofNat 32 w.length + sumBytes w
+
+/-- `s2` of a window in closed form: `31 n (n-1) + Σ (n-i) wᵢ`. -/
+def rollS2 (w : Bytes) : U32 :=
+  31#32 * BitVec.ofNat 32 w.length * BitVec.ofNat 32 (w.length - 1) + weightedSum w
+
+theorem rollsumOf_eq (w : Bytes) :
+    rollsumOf w = (rollS1 w <<< 16) ||| (rollS2 w &&& 0xffff#32) := rfl
+
+/-- The state `h` is the one determined by the window `w`. -/
+def RollOK (h : RollSum) (w : Bytes) : Prop :=
+  h.win = w ∧ h.s1 = rollS1 w ∧ h.s2 = rollS2 w
+
+theorem charOffset_eq : charOffset = 31#32 := by decide
+
+theorem RollOK_new (n : Nat) : RollOK (RollSum.new n) (List.replicate n 0) := by
+  refine ⟨rfl, ?_, ?_⟩
+  · simp only [RollSum.new, rollS1, List.length_replicate, sumBytes_replicate_zero, charOffset_eq]
+    grind
+  · simp only [RollSum.new, rollS2, List.length_replicate, weightedSum_replicate_zero,
+      charOffset_eq]
+    grind
+
+theorem RollOK_sum {h : RollSum} {w : Bytes} (ok : RollOK h w) : h.sum = rollsumOf w := by
+  obtain ⟨_, h1, h2⟩ := ok
+  rw [rollsumOf_eq, RollSum.sum, h1, h2]
+
+theorem RollOK_input {h : RollSum} {w : Bytes} (ok : RollOK h w) (hw : 1 ≤ w.length) (b : UInt8) :
+    RollOK (h.input b) (w.tail ++ [b]) := by
+  obtain ⟨hwin, h1, h2⟩ := ok
+  cases w with
+  | nil => simp at hw
+  | cons b0 t =>
+    have e1 : (h.input b).s1 = rollS1 (t ++ [b]) := by
+      simp only [RollSum.input, hwin, h1, List.headD_cons, rollS1, List.length_cons,
+        List.length_append, sumBytes, sumBytes_append_single]
+      show _ + byteVal b - byteVal b0 = _
+      grind
+    refine ⟨by simp [RollSum.input, hwin], e1, ?_⟩
+    show h.s2 + (h.input b).s1 - _ = _
+    rw [e1, h2, hwin]
+    simp only [List.headD_cons, rollS1, rollS2, List.length_cons,
+        List.length_append, sumBytes_append_single, weightedSum,
+        weightedSum_append_single, charOffset_eq]
+    show _ - _ * (byteVal b0 + _) = _
+    grind
+
+theorem RollOK_length {h : RollSum} {w : Bytes} (ok : RollOK h w) : h.win.length = w.length := by
+  rw [ok.1]
+
+/-- Feeding `bs` from any state whose window is `w` yields the state of the last `w.length`
+bytes of `w ++ bs`. -/
+theorem rollsum_feed (n : Nat) (hn : 1 ≤ n) (bs : Bytes) :
+    ∀ (h : RollSum) (w : Bytes), w.length = n → RollOK h w →
+      RollOK (bs.foldl RollSum.input h) ((w ++ bs).drop bs.length) := by
+  induction bs with
+  | nil => intro h w _ ok; simpa using ok
+  | cons b bs ih =>
+    intro h w hw ok
+    cases w with
+    | nil => simp at hw; omega
+    | cons b0 t =>
+      have := ih (h.input b) (t ++ [b]) (by simpa using hw) (RollOK_input ok (by simp) b)
+      simpa using this
+
+theorem rollsum_feed_sum (n : Nat) (hn : 1 ≤ n) (h : RollSum) (w : Bytes) (hw : w.length = n)
+    (ok : RollOK h w) (bs : Bytes) :
+    (bs.foldl RollSum.input h).sum = rollsumOf ((w ++ bs).drop bs.length) :=
+  RollOK_sum (rollsum_feed n hn bs h w hw ok)
+
 theorem rollsum_is_window_function (n : Nat) (hn : 1 ≤ n) (hist : Bytes) :
     (hist.foldl RollSum.input (RollSum.new n)).sum
       = rollsumOf (winAt n hist hist.length) := by
-  sorry
+  have := rollsum_feed n hn hist _ _ (by simp) (RollOK_new n)
+  rw [RollOK_sum this, winAt, List.take_of_length_le]
+  simp
+
+/-! ## BuzHash -/
+
+theorem rotl_xor (x y : U32) (k : Nat) : rotl (x ^^^ y) k = rotl x k ^^^ rotl y k := by
+  unfold rotl
+  ext i hi
+  simp only [BitVec.getElem_rotateLeft, BitVec.getElem_xor]
+  split <;> rfl
+
+theorem rotl_rotl (x : U32) (a b : Nat) : rotl (rotl x a) b = rotl x (a + b) := by
+  unfold rotl
+  ext i hi
+  simp only [BitVec.getElem_rotateLeft]
+  repeat' split
+  all_goals first | (congr 1; omega) | omega
+
+theorem rotl_zero_left (k : Nat) : rotl 0#32 k = 0#32 := by
+  unfold rotl
+  ext i hi
+  simp [BitVec.getElem_rotateLeft]
+
+theorem rotl_zero (x : U32) : rotl x 0 = x := by
+  unfold rotl
+  ext i hi
+  simp [BitVec.getElem_rotateLeft]
+
+theorem buzOf_append_single (w : Bytes) (b : UInt8) :
+    buzOf (w ++ [b]) = rotl (buzOf w) 1 ^^^ buzTable b := by
+  induction w with
+  | nil => simp [buzOf, rotl_zero, rotl_zero_left]
+  | cons a t ih =>
+    simp only [List.cons_append, buzOf, ih, List.length_append, List.length_singleton, rotl_xor,
+      rotl_rotl]
+    grind
+
+/-- Rolling one byte through a full window. -/
+theorem buzOf_roll (b0 : UInt8) (t : Bytes) (b : UInt8) :
+    rotl (buzOf (b0 :: t)) 1 ^^^ rotl (buzTable b0) (t.length + 1) ^^^ buzTable b
+      = buzOf (t ++ [b]) := by
+  simp only [buzOf, buzOf_append_single, rotl_xor, rotl_rotl]
+  grind
+
+/-- The repeat counter is sound: the last `rep + 1` bytes fed (all of them, if fewer were fed)
+equal `last`. -/
+def RepOK (last : UInt8) (rep : Nat) (fed : Bytes) : Prop :=
+  ∀ x ∈ fed.drop (fed.length - (rep + 1)), x = last
+
+theorem RepOK_nil : RepOK 0 0 [] := by simp [RepOK]
+
+theorem RepOK_step {last : UInt8} {rep : Nat} {fed : Bytes} (ok : RepOK last rep fed) (b : UInt8) :
+    RepOK (if b = last then (last, rep + 1) else (b, 0)).1
+      (if b = last then (last, rep + 1) else (b, 0)).2 (fed ++ [b]) := by
+  unfold RepOK at *
+  split
+  · next hb =>
+    subst hb
+    intro x hx
+    simp only [List.length_append, List.length_singleton] at hx
+    rw [show fed.length + 1 - (rep + 1 + 1) = fed.length - (rep + 1) by omega,
+      List.drop_append_of_le_length (by omega)] at hx
+    simp only [List.mem_append, List.mem_singleton] at hx
+    rcases hx with hx | hx
+    · exact ok x hx
+    · exact hx
+  · intro x hx
+    simpa using hx
+
+/-- If the counter (after the update) reaches the window size, the window is full of `last`. -/
+theorem RepOK_window {last : UInt8} {rep : Nat} {fed : Bytes} (ok : RepOK last rep fed)
+    {n : Nat} (hn : n ≤ rep + 1) (hlen : n ≤ fed.length) :
+    fed.drop (fed.length - n) = List.replicate n last := by
+  rw [List.eq_replicate_iff]
+  refine ⟨by simp; omega, ?_⟩
+  intro x hx
+  apply ok x
+  have : fed.length - n = (fed.length - (rep + 1)) + ((fed.length - n) - (fed.length - (rep + 1))) := by
+    omega
+  rw [this, ← List.drop_drop] at hx
+  exact List.mem_of_mem_drop hx
+
+
+/-- `(last_input, repeated_input)` after one more byte (the same in `init` and `input`). -/
+def repStep (last : UInt8) (rep : Nat) (b : UInt8) : UInt8 × Nat :=
+  if b = last then (last, rep + 1) else (b, 0)
+
+theorem RepOK_repStep {last : UInt8} {rep : Nat} {fed : Bytes} (ok : RepOK last rep fed)
+    (b : UInt8) : RepOK (repStep last rep b).1 (repStep last rep b).2 (fed ++ [b]) :=
+  RepOK_step ok b
+
+section fields
+variable (h : BuzHash) (b : UInt8)
+
+theorem init_window (hf : h.full = false) : (h.init b).window = h.window := by
+  by_cases hb : b = h.last <;> simp [BuzHash.init, hf, hb]
+theorem init_full (hf : h.full = false) : (h.init b).full = decide (h.window - 1 ≤ h.filled) := by
+  by_cases hb : b = h.last <;> simp [BuzHash.init, hf, hb]
+theorem init_filled (hf : h.full = false) :
+    (h.init b).filled = if h.filled + 1 ≥ h.window then 0 else h.filled + 1 := by
+  by_cases hb : b = h.last <;> simp [BuzHash.init, hf, hb]
+theorem init_win (hf : h.full = false) : (h.init b).win = h.win.tail ++ [buzTable b] := by
+  by_cases hb : b = h.last <;> simp [BuzHash.init, hf, hb]
+theorem init_sum (hf : h.full = false) :
+    (h.init b).sum = h.sum ^^^ rotl (buzTable b) (h.window - (h.filled + 1)) := by
+  by_cases hb : b = h.last <;> simp [BuzHash.init, hf, hb]
+theorem init_last (hf : h.full = false) : (h.init b).last = (repStep h.last h.rep b).1 := by
+  by_cases hb : b = h.last <;> simp [BuzHash.init, hf, hb, repStep]
+theorem init_rep (hf : h.full = false) : (h.init b).rep = (repStep h.last h.rep b).2 := by
+  by_cases hb : b = h.last <;> simp [BuzHash.init, hf, hb, repStep]
+
+theorem input_window : (h.input b).window = h.window := by
+  by_cases hb : b = h.last <;> simp only [BuzHash.input, hb, if_true, if_false] <;> split <;> rfl
+theorem input_full : (h.input b).full = h.full := by
+  by_cases hb : b = h.last <;> simp only [BuzHash.input, hb, if_true, if_false] <;> split <;> rfl
+theorem input_last : (h.input b).last = (repStep h.last h.rep b).1 := by
+  by_cases hb : b = h.last <;> simp only [BuzHash.input, repStep, hb, if_true, if_false] <;> split <;> rfl
+theorem input_rep : (h.input b).rep = (repStep h.last h.rep b).2 := by
+  by_cases hb : b = h.last <;> simp only [BuzHash.input, repStep, hb, if_true, if_false] <;> split <;> rfl
+theorem input_win :
+    (h.input b).win =
+      if (repStep h.last h.rep b).2 < h.window then h.win.tail ++ [buzTable b] else h.win := by
+  by_cases hb : b = h.last <;> simp only [BuzHash.input, repStep, hb, if_true, if_false] <;> split <;> rfl
+theorem input_sum :
+    (h.input b).sum =
+      if (repStep h.last h.rep b).2 < h.window then
+        rotl h.sum 1 ^^^ rotl (h.win.headD 0) h.window ^^^ buzTable b
+      else h.sum := by
+  by_cases hb : b = h.last <;> simp only [BuzHash.input, repStep, hb, if_true, if_false] <;> split <;> rfl
+
+end fields
+
+/-- Last `n` elements after appending one. -/
+theorem lastN_snoc {α} (fed : List α) (b : α) {n : Nat} (hn : 1 ≤ n) (hlen : n ≤ fed.length) :
+    (fed ++ [b]).drop (fed.length + 1 - n) = (fed.drop (fed.length - n)).tail ++ [b] := by
+  rw [show fed.length + 1 - n = (fed.length - n) + 1 by omega,
+    List.drop_append_of_le_length (by omega), List.tail_drop]
+
+/-- Warm-up: state after `init` on each byte of `fed`, fewer than `n` of them. -/
+structure BuzWarm (h : BuzHash) (n : Nat) (fed : Bytes) : Prop where
+  window : h.window = n
+  full : h.full = false
+  filled : h.filled = fed.length
+  len : fed.length < n
+  win : h.win = List.replicate (n - fed.length) 0 ++ fed.map buzTable
+  sum : h.sum = rotl (buzOf fed) (n - fed.length)
+  rep : RepOK h.last h.rep fed
+
+/-- Rolling: state after feeding the byte sequence `fed` (`init` for the first `n`, `input`
+afterwards), at least `n` of them. -/
+structure BuzOK (h : BuzHash) (n : Nat) (fed : Bytes) : Prop where
+  window : h.window = n
+  full : h.full = true
+  len : n ≤ fed.length
+  win : h.win = (fed.drop (fed.length - n)).map buzTable
+  sum : h.sum = buzOf (fed.drop (fed.length - n))
+  rep : RepOK h.last h.rep fed
+
+theorem BuzWarm_new (n : Nat) (hn : 1 ≤ n) : BuzWarm (BuzHash.new n) n [] where
+  window := rfl
+  full := rfl
+  filled := rfl
+  len := by show 0 < n; omega
+  win := by simp [BuzHash.new]
+  sum := by simp [BuzHash.new, buzOf, rotl_zero_left]
+  rep := RepOK_nil
+
+theorem BuzWarm_init_lt {h : BuzHash} {n : Nat} {fed : Bytes} (ok : BuzWarm h n fed) (b : UInt8)
+    (hlt : fed.length + 1 < n) : BuzWarm (h.init b) n (fed ++ [b]) where
+  window := by rw [init_window _ _ ok.full, ok.window]
+  full := by rw [init_full _ _ ok.full, ok.window, ok.filled]; simp; omega
+  filled := by rw [init_filled _ _ ok.full, ok.window, ok.filled]; simp; omega
+  len := by simpa using hlt
+  win := by
+    rw [init_win _ _ ok.full, ok.win]
+    obtain ⟨k, hk⟩ : ∃ k, n - fed.length = k + 1 := ⟨n - fed.length - 1, by omega⟩
+    have : n - (fed ++ [b]).length = k := by simp; omega
+    rw [this, hk]
+    simp [List.replicate_succ]
+  sum := by
+    rw [init_sum _ _ ok.full, ok.sum, ok.window, ok.filled, buzOf_append_single, rotl_xor,
+      rotl_rotl]
+    simp only [List.length_append, List.length_singleton]
+    rw [show 1 + (n - (fed.length + 1)) = n - fed.length by omega]
+  rep := by
+    rw [init_last _ _ ok.full, init_rep _ _ ok.full]; exact RepOK_repStep ok.rep b
+
+theorem BuzWarm_init_eq {h : BuzHash} {n : Nat} {fed : Bytes} (ok : BuzWarm h n fed) (b : UInt8)
+    (heq : fed.length + 1 = n) : BuzOK (h.init b) n (fed ++ [b]) where
+  window := by rw [init_window _ _ ok.full, ok.window]
+  full := by rw [init_full _ _ ok.full, ok.window, ok.filled]; simp; omega
+  len := by simp; omega
+  win := by
+    rw [init_win _ _ ok.full, ok.win]
+    have : (fed ++ [b]).length - n = 0 := by simp; omega
+    rw [this, show n - fed.length = 1 by omega]
+    simp
+  sum := by
+    rw [init_sum _ _ ok.full, ok.sum, ok.window, ok.filled]
+    have : (fed ++ [b]).length - n = 0 := by simp; omega
+    rw [this, List.drop_zero, buzOf_append_single, show n - fed.length = 1 by omega,
+      show n - (fed.length + 1) = 0 by omega, rotl_zero]
+  rep := by
+    rw [init_last _ _ ok.full, init_rep _ _ ok.full]; exact RepOK_repStep ok.rep b
+
+/-- In the repeat-skip branch the window does not change. -/
+theorem skip_window {last : UInt8} {rep : Nat} {fed : Bytes} (ok : RepOK last rep fed) (b : UInt8)
+    {n : Nat} (hlen : n ≤ fed.length) (hskip : ¬ (repStep last rep b).2 < n) :
+    (fed ++ [b]).drop (fed.length + 1 - n) = fed.drop (fed.length - n) := by
+  by_cases hn : n = 0
+  · subst hn; simp
+  · have hb : b = last := by
+      by_cases hb : b = last
+      · exact hb
+      · simp [repStep, hb] at hskip; omega
+    subst hb
+    have hr : n ≤ rep + 1 := by simpa [repStep] using hskip
+    rw [lastN_snoc fed b (by omega) hlen, RepOK_window ok hr hlen]
+    obtain ⟨k, rfl⟩ : ∃ k, n = k + 1 := ⟨n - 1, by omega⟩
+    simp only [List.replicate_succ, List.tail_cons]
+    rw [← List.replicate_succ', List.replicate_succ]
+
+theorem BuzOK_input {h : BuzHash} {n : Nat} {fed : Bytes} (ok : BuzOK h n fed) (b : UInt8) :
+    BuzOK (h.input b) n (fed ++ [b]) := by
+  have hlenA : (fed ++ [b]).length = fed.length + 1 := by simp
+  refine ⟨by rw [input_window, ok.window], by rw [input_full, ok.full], by have := ok.len; omega,
+    ?_, ?_, by rw [input_last, input_rep]; exact RepOK_repStep ok.rep b⟩
+  · rw [input_win, ok.window, hlenA]
+    split
+    · next hroll =>
+      rw [lastN_snoc fed b (by omega) ok.len, ok.win]
+      simp
+    · next hskip => rw [skip_window ok.rep b ok.len hskip, ok.win]
+  · rw [input_sum, ok.window, hlenA]
+    split
+    · next hroll =>
+      rw [lastN_snoc fed b (by omega) ok.len, ok.win, ok.sum]
+      have hl : (fed.drop (fed.length - n)).length = n := by have := ok.len; simp; omega
+      cases hw : fed.drop (fed.length - n) with
+      | nil => rw [hw] at hl; simp at hl; omega
+      | cons b0 t =>
+        rw [hw] at hl
+        simp only [List.map_cons, List.headD_cons, List.tail_cons]
+        rw [← buzOf_roll, ← hl]; rfl
+    · next hskip => rw [skip_window ok.rep b ok.len hskip, ok.sum]
+
+theorem BuzOK_sum {h : BuzHash} {n : Nat} {fed : Bytes} (ok : BuzOK h n fed) :
+    h.sum = buzOf (fed.drop (fed.length - n)) := ok.sum
+
+/-- Feeding more bytes with `input`. -/
+theorem BuzOK_feed {n : Nat} (bs : Bytes) :
+    ∀ {h : BuzHash} {fed : Bytes}, BuzOK h n fed → BuzOK (bs.foldl BuzHash.input h) n (fed ++ bs) := by
+  induction bs with
+  | nil => intro h fed ok; simpa using ok
+  | cons b bs ih =>
+    intro h fed ok
+    have := ih (BuzOK_input ok b)
+    simpa using this
+
+/-- The chunker's way of driving the hasher (`init` until `init_done`, `input` afterwards). -/
+def buzStep (h : BuzHash) (b : UInt8) : BuzHash := if h.full then h.input b else h.init b
+
+/-- Either phase. -/
+def BuzInv (h : BuzHash) (n : Nat) (fed : Bytes) : Prop := BuzWarm h n fed ∨ BuzOK h n fed
+
+theorem BuzInv_new (n : Nat) (hn : 1 ≤ n) : BuzInv (BuzHash.new n) n [] := .inl (BuzWarm_new n hn)
+
+theorem BuzInv.ok {h : BuzHash} {n : Nat} {fed : Bytes} (inv : BuzInv h n fed)
+    (hlen : n ≤ fed.length) : BuzOK h n fed := by
+  rcases inv with w | o
+  · have := w.len; omega
+  · exact o
+
+theorem BuzInv.warm {h : BuzHash} {n : Nat} {fed : Bytes} (inv : BuzInv h n fed)
+    (hlen : fed.length < n) : BuzWarm h n fed := by
+  rcases inv with w | o
+  · exact w
+  · have := o.len; omega
+
+theorem BuzInv_step {h : BuzHash} {n : Nat} {fed : Bytes} (inv : BuzInv h n fed) (b : UInt8) :
+    BuzInv (buzStep h b) n (fed ++ [b]) := by
+  rcases inv with w | o
+  · rw [buzStep, w.full]
+    by_cases hlt : fed.length + 1 < n
+    · exact .inl (BuzWarm_init_lt w b hlt)
+    · exact .inr (BuzWarm_init_eq w b (by have := w.len; omega))
+  · rw [buzStep, o.full]
+    exact .inr (BuzOK_input o b)
+
+theorem BuzInv_fold {n : Nat} (bs : Bytes) :
+    ∀ {h : BuzHash} {fed : Bytes}, BuzInv h n fed → BuzInv (bs.foldl buzStep h) n (fed ++ bs) := by
+  induction bs with
+  | nil => intro h fed inv; simpa using inv
+  | cons b bs ih =>
+    intro h fed inv
+    have := ih (BuzInv_step inv b)
+    simpa using this
 
 theorem buzhash_is_window_function (n : Nat) (hn : 1 ≤ n) (hist : Bytes) (hlen : n ≤ hist.length) :
     (hist.foldl (fun h b => if h.full then h.input b else h.init b) (BuzHash.new n)).sum
       = buzOf (winAt n hist hist.length) := by
-  sorry
+  have inv := BuzInv_fold (n := n) hist (BuzInv_new n hn)
+  rw [List.nil_append] at inv
+  rw [winAt_end_of_le n hist hlen, ← (inv.ok hlen).sum]
+  rfl
 
 end Bita.Proofs
